@@ -104,6 +104,19 @@ def diverged(params, run):
     return any((not bool(p.detach().isfinite().all())) or float(p.detach().abs().max()) > lim for p in params if p.numel())
 
 
+def classify_abort(e, run, obs):
+    """Which documented / third-party reaction ended the run without a verdict?  None => the exception is a violation."""
+    name = type(e).__name__
+    cfg = run["cfg"]
+    if name in ("PreconditionerValueError", "ValueError") and diverged(getattr(execute, "last_params", []), run):
+        return "aborted_diverged"
+    if name == "PreconditionerValueError" and cfg["epsilon"] < 1e-4 * run["grad_scale"] ** 2:
+        return "aborted_nonfinite_root_ill_conditioned"
+    if name == "PreconditionerValueError" and obs is not None and obs.nonfinite_from_finite:
+        return "aborted_lapack_returned_nonfinite"
+    return None
+
+
 def execute(run, case_seed, counters, monitor_kwargs=None, on_step=None):
     """build the optimizer, feed the history under the step-locked monitor"""
     ds = import_repo()
@@ -156,16 +169,10 @@ def run_case(case):
         v.witness.setdefault("run", {k: run[k] for k in ("cfg", "shapes", "groups", "T", "presence_kind", "edits", "grad_scale", "grad_kind")})
         raise
     except Exception as e:  # noqa
-        # A non-finite root on a factor that is ill-conditioned by construction is the documented reaction (C13), not a C01 matter.
-        if type(e).__name__ == "PreconditionerValueError" and run["cfg"]["epsilon"] < 1e-4 * run["grad_scale"] ** 2:
-            counters["aborted_nonfinite_root_ill_conditioned"] = 1
-        elif type(e).__name__ in ("PreconditionerValueError", "ValueError") and diverged(getattr(execute, "last_params", []), run):
-            counters["aborted_diverged"] = 1
-        elif type(e).__name__ == "PreconditionerValueError" and obs.nonfinite_from_finite:
-            # torch.linalg.eigh itself returned NaN for a finite matrix; raising is the documented reaction (C13)
-            counters["aborted_lapack_returned_nonfinite"] = 1
-        else:
+        why = classify_abort(e, run, obs)
+        if why is None:
             raise
+        counters[why] = 1
     counters["evals"] = counters.get("block_steps", 0)
     nontrivial = counters.get("refreshes", 0) >= 1 and counters.get("precond_block_steps", 0) >= 1
     return {"counters": counters, "sigs": [signature(run, counters)] if nontrivial else [], "sample": {"cfg": run["cfg"], "shapes": run["shapes"], "groups": run["groups"], "T": run["T"], "presence_kind": run["presence_kind"], "edits": run["edits"]}}
